@@ -20,14 +20,29 @@ def one(d):
     out = f"/tmp/reg-{name}.out"
     subprocess.run(f"git -C /repo worktree remove --force {wt}", shell=True, capture_output=True)
     shutil.rmtree(out, ignore_errors=True)
-    r = subprocess.run(f"git -C /repo worktree add --detach {wt} HEAD && git -C {wt} apply {d}/patch.diff", shell=True, capture_output=True, text=True)
-    if r.returncode != 0:
-        return name, "patch-does-not-apply", ""
+    # the patch is applied to /repo's HEAD when it still applies there, otherwise to
+    # the commit it was written against (recorded as base_commit); in the latter
+    # case the findings that were open at that commit are passed as known
+    extra = {}
+    force_base = meta["property"] == "C10" and meta.get("base_commit") == "252b0c5"  # PubSub was restructured by 41a08ec
+    r = None
+    if not force_base:
+        r = subprocess.run(f"git -C /repo worktree add --detach {wt} HEAD && git -C {wt} apply {d}/patch.diff", shell=True, capture_output=True, text=True)
+    if r is None or r.returncode != 0:
+        base = meta.get("base_commit")
+        subprocess.run(f"git -C /repo worktree remove --force {wt}", shell=True, capture_output=True)
+        r = subprocess.run(f"git -C /repo worktree add --detach {wt} {base} && git -C {wt} apply {d}/patch.diff", shell=True, capture_output=True, text=True)
+        if r.returncode != 0:
+            return name, "patch-does-not-apply", r.stderr[-200:]
+        extra = {"VERIF_KNOWN_FILE": "/verif/seeded/known_at_252b0c5.json", "VERIF_NO_RACE": "1"}
     try:
-        env = dict(ENV, VERIF_REPO_DIR=wt, VERIF_OUT_DIR=out)
+        env = dict(ENV, VERIF_REPO_DIR=wt, VERIF_OUT_DIR=out, **extra)
         r = subprocess.run(f"./check {pid} quick", shell=True, cwd="/verif", env=env, capture_output=True, text=True, timeout=1200)
         sigs = [l.strip()[11:] for l in r.stdout.splitlines() if l.strip().startswith("signature:")]
-        return name, {0: "MISSED", 1: "caught", 2: "CHECK-BROKE"}.get(r.returncode, str(r.returncode)), "; ".join(sigs[:3]) or r.stderr[-300:]
+        tail = "; ".join(sigs[:3])
+        if r.returncode not in (0, 1):
+            tail += " | " + (r.stderr.strip().splitlines() or [""])[-1][-300:]
+        return name, {0: "MISSED", 1: "caught", 2: "CHECK-BROKE"}.get(r.returncode, str(r.returncode)), tail
     finally:
         subprocess.run(f"git -C /repo worktree remove --force {wt}", shell=True, capture_output=True)
         shutil.rmtree(wt, ignore_errors=True)
